@@ -99,6 +99,46 @@ def streamed(codec, sub, T, spec):
     return ([snap(T, x, spec) for x in items], 'stop' if final == 'stop' else final.errclass())
 
 
+def streamed_nonblocking(codec, b, T, spec):
+    """The octets arrive on a non-blocking non-seekable source in bursts that end at the boundaries of top-level elements (and
+    once in the middle), with three idle polls before each further burst; then the source closes."""
+    cuts = set()
+    try:
+        for top in x690.walk_all(b):
+            cuts.add(top.end)
+    except x690.RefError:
+        pass
+    cuts = sorted(c for c in (cuts | {len(b) // 2}) if 0 < c < len(b))[:40]
+    st = streams.PipeFeed()
+    bursts = [b[a:z] for a, z in zip([0] + cuts, cuts + [len(b)])]
+    st.feed_bytes(bursts.pop(0) if bursts else b'')
+    if not bursts:
+        st.finish()
+    items, final, idle, steps = [], 'stop', 0, 0
+    try:
+        dec = lib.DEC[codec].StreamingDecoder(st, asn1Spec=spec) if spec is not None else lib.DEC[codec].StreamingDecoder(st)
+        for x in dec:
+            steps += 1
+            if steps > 50 * (len(cuts) + 2) + 20 * len(b) + 100:
+                final = 'livelock'
+                break
+            if isinstance(x, error.SubstrateUnderrunError):
+                idle += 1
+                if idle >= 3 and not st.eof:
+                    idle = 0
+                    if bursts:
+                        st.feed_bytes(bursts.pop(0))
+                    if not bursts:
+                        st.finish()
+                continue
+            items.append(snap(T, x, spec))
+    except error.PyAsn1Error as ex:
+        final = lib.Out('err', exc=ex).errclass()
+    except Exception as ex:
+        final = 'leak:' + harness.exc_sig(ex)
+    return (items, final)
+
+
 def run_case(case, col=None):
     T, b, codec = case['T'], case['b'], case['codec']
     fails = []
@@ -109,20 +149,26 @@ def run_case(case, col=None):
     sch = build.schema(T) if T is not None else None
     base1 = oneshot(codec, b, T, sch)
     base2 = streamed(codec, io.BytesIO(b), T, sch)
-    kinds = KINDS if case.get('kind') is None else [case['kind']]
+    kinds = KINDS + ('nonblocking-pipe',) if case.get('kind') is None else [case['kind']]
     with tempfile.TemporaryDirectory(prefix='pv_c11_') as tmp:
         for kind in kinds:
             for mode, base, fn in (('oneshot', base1, oneshot), ('stream', base2, streamed)):
-                if mode == 'oneshot' and kind == 'trickle-pipe':
+                if mode == 'oneshot' and kind in ('trickle-pipe', 'nonblocking-pipe'):
                     continue
                 if kind == 'trickle-pipe' and len(b) > 3000:
                     continue
-                sub, closer = make_substrate(kind, b, tmp)
-                try:
-                    got = fn(codec, sub, T, sch)
-                finally:
-                    if closer is not None:
-                        closer.close()
+                if kind == 'nonblocking-pipe':
+                    if len(b) > BUF - 200:
+                        continue            # (large inputs behind the caching wrapper: known finding F09, judged on the other kinds)
+                    got = streamed_nonblocking(codec, b, T, sch)
+                    sub, closer = None, None
+                else:
+                    sub, closer = make_substrate(kind, b, tmp)
+                    try:
+                        got = fn(codec, sub, T, sch)
+                    finally:
+                        if closer is not None:
+                            closer.close()
                 if col is not None:
                     col.case(b[:200] + repr((len(b), kind, mode, case.get('label'))).encode(), len(b) > BUF or case.get('invalid', False),
                              ['kind:' + kind, mode, 'size>buffer' if len(b) > BUF else 'size<=buffer', 'invalid' if case.get('invalid') else 'valid',
